@@ -869,6 +869,9 @@ func (ce *cenv) evalCall(e *CExpr) cvar {
 		}
 		obj := x.env.pkg.Types.Scope().Lookup(tn)
 		if obj == nil {
+			obj = types.Universe.Lookup(tn)
+		}
+		if obj == nil {
 			ce.fail("typeis: unknown type %s", tn)
 		}
 		var t types.Type = obj.Type()
